@@ -143,7 +143,15 @@ class P:
         # the race family needs calls to overlap within a microsecond: one process at a time (see C13)
         race = [l for l in lines if " ;; " in l]
         rest = [l for l in lines if " ;; " not in l]
+        # histories that need no fresh process share ONE process, in generation order: their contexts are dropped and re-created
+        # line after line in the same address space (whatever the engine keys by a context's identity meets re-used identities),
+        # and which histories follow one another does not depend on what other families generate
+        def fresh(l):
+            return any(o.startswith(("REG", "SD:", "H:", "CF:", "PROBE", "@")) or o == "||" for o in l.split(" ")[1:])
+        shared = [l for l in rest if not fresh(l)]
+        rest = [l for l in rest if fresh(l)]
         res = core.run_impl(rest)
+        res.update(core.run_lines([build.impl_bin("debug")], shared, nshards=1))
         res.update(core.run_lines([build.impl_bin("debug")], race, nshards=1))
         return res
 
